@@ -170,7 +170,8 @@ CLAIMS['C08'] = (
 CLAIMS['C10'] = (
     'fault_enumeration',
     'exhaustive crash-point enumeration: every file-system mutation point of a regeneration (plus truncated/torn states of every written file) x every follow-up sequence, in forked children with fs calls interposed',
-    'For each scenario (add/remove a matching file, edit build.bfg, edit options.bfg, initial configure) and backend, '
+    'For each scenario (add/remove a matching file, edit build.bfg, edit options.bfg, configure re-run with other '
+    'options over a built directory, initial configure) and backend, '
     'the regeneration is run once uninterrupted in a forked child with open/remove/utime/makedirs/rename wrapped to '
     'list its mutation points; it is then re-run once per point and killed with os._exit immediately before it '
     '(files seen absent/old, truncated, half-written, complete). From every crashed state every sequence of <=1 '
